@@ -8,7 +8,13 @@ try:
 except ImportError:  # pragma: no cover
     from monotonic import monotonic
 
-from .common import _Future, MAX_TIMEOUT, copy_future_exception, try_set_result
+from .common import (
+    _Future,
+    MAX_TIMEOUT,
+    copy_exception,
+    copy_future_exception,
+    try_set_result,
+)
 from .wrap import CanCustomizeBind
 from .helpers import executor_loop
 from .event import get_event, is_shutdown
@@ -311,6 +317,8 @@ class RetryExecutor(CanCustomizeBind, Executor):
         return min_job
 
     def _submit_now(self, job):
+        refused = None
+
         # Pop job since we'll replace it.
         # We need to hold the lock for the entire duration so that other
         # threads won't see _jobs between our removal and re-add of the job
@@ -329,21 +337,35 @@ class RetryExecutor(CanCustomizeBind, Executor):
                 if job.attempt != 0:
                     metrics.RETRY_TOTAL.labels(executor=self._name).inc()
 
-                delegate_future = self._delegate.submit(job.fn, *job.args, **job.kwargs)
-                job.future.delegate_future = delegate_future
+                try:
+                    delegate_future = self._delegate.submit(
+                        job.fn, *job.args, **job.kwargs
+                    )
+                except Exception as ex:  # pylint: disable=broad-except
+                    # The delegate refused the callable (for instance, it has
+                    # been shut down). That is the outcome of this future;
+                    # it must not take down the thread serving all the others.
+                    self._log.debug("Delegate refused %s", job, exc_info=True)
+                    refused = ex
+                else:
+                    job.future.delegate_future = delegate_future
 
-                new_job = RetryJob(
-                    job.policy,
-                    delegate_future,
-                    job.future,
-                    job.attempt + 1,
-                    None,
-                    job.fn,
-                    job.args,
-                    job.kwargs,
-                )
-                self._append_job(new_job)
-                self._log.debug("Submitted: %s", new_job)
+                    new_job = RetryJob(
+                        job.policy,
+                        delegate_future,
+                        job.future,
+                        job.attempt + 1,
+                        None,
+                        job.fn,
+                        job.args,
+                        job.kwargs,
+                    )
+                    self._append_job(new_job)
+                    self._log.debug("Submitted: %s", new_job)
+
+        if refused is not None:
+            copy_exception(job.future, refused, refused.__traceback__)
+            return
 
         delegate_future.add_done_callback(self._delegate_callback)
         self._wake_thread()
